@@ -1464,6 +1464,9 @@ class TTNS(TTNBase):
             order = self.basis.basis_list
         indices_up = []
         for basis in order:
+            if isinstance(basis, BasisDummy):
+                # virtual nodes carry no physical index (same as TTNO.todense)
+                continue
             indices_up.append(("down", str(basis.dofs)))
         output_indices = indices_up
         args.append(output_indices)
